@@ -41,6 +41,11 @@ def listCase (kind : String) : P String := do
       let md ← nat; let ext ← nat; let nu ← nat; let n ← nat
       let ms ← rep n fbits; let ds ← rep n fbits
       pure (" ".intercalate ((Hmf.Lists.hmfIntegralGtm (md == 1) (ext == 1) ms ds nu).map showF))
+  | "gtmraw" => do
+      -- QUAD gtmraw <massDensity 0|1> <extend 0|1> <nUpper> <n> <M…> <dndm…>   (NaN rows still in the table)
+      let md ← nat; let ext ← nat; let nu ← nat; let n ← nat
+      let ms ← rep n fbits; let ds ← rep n fbits
+      pure (" ".intercalate ((Hmf.Lists.hmfIntegralGtmRaw (md == 1) (ext == 1) ms ds nu).map showF))
   | k => throw s!"bad quad kind {k}"
 
 def handle (lookup : String → Option E) (line : String) : String :=
